@@ -108,6 +108,8 @@ def model_kwargs(entry, missing_label, classes, seed=0, variant=0):
         return {"clf": (_clf, _sk_clf, _tree_clf)[variant % 3](missing_label, classes, seed)}
     if m == "clf_freq":
         return {"clf": _clf(missing_label, classes, seed)}
+    if m == "clf_logreg":
+        return {"clf": _sk_clf(missing_label, classes, seed)}
     if m == "reg":
         return {"reg": (_reg, _sk_reg)[variant % 2](seed) if entry.cls_name != "RegressionTreeBasedAL" else _tree_reg(seed)}
     if m == "reg_prob":
